@@ -11,6 +11,7 @@
 (* the top level over a reduced alphabet.                                                                  *)
 EXTENDS Naturals, Sequences, FiniteSets, TLC, Json
 CONSTANTS SkipDupCheck, NoSanityInCreate, NoSanityInFill, NoExcl, Emit,
+          MknodReusesSameKind, \* deviation: mknod()'s EEXIST is accepted when stat() - which follows a symlink - finds an object of the same kind
           WithPre,             \* the unpack root may hold something before the run (PreStates); FALSE = always empty
           MkdirReusesAnything, \* deviation (the pinned tree before fix c2a2e0f): mkdir's EEXIST is accepted whatever exists there - also a symlink left by an earlier unpack
           NoSanityInAttr,   \* deviation: set_attribs does not skip entries with an insane name
@@ -23,7 +24,7 @@ Kinds == {"dir", "file", "link"}
 Tgts  == {"up", "upup", "absout", "a"}
 Sane(n)   == n \in {"a", "b", "A"}            \* is_filename_sane: not ".", "..", no '/'
 Comp(n)   == CASE n = "dd" -> <<"..">> [] n = "dot" -> <<".">> [] n = "sl" -> <<"x", "y">> [] OTHER -> <<n>>
-TgtPath(t) == CASE t = "up" -> <<"..">> [] t = "upup" -> <<"..", "..">> [] t = "absout" -> <<"/", "OUT">> [] OTHER -> <<"a">>
+TgtPath(t) == CASE t = "up" -> <<"..">> [] t = "upup" -> <<"..", "..">> [] t = "absout" -> <<"/", "OUT">> [] t = "outpipe" -> <<"/", "OUT", "p">> [] OTHER -> <<"a">>
 Root == <<"J", "R">>
 Parent(p) == IF p = <<>> THEN <<>> ELSE SubSeq(p, 1, Len(p) - 1)
 Lookup(f, p) == {e \in f : e.p = p}
@@ -53,6 +54,11 @@ Create(f, rel, n) ==
        IF n.kind = "dir"
        THEN (IF ex THEN [fs |-> f, bad |-> FALSE, fail |-> ~(MkdirReusesAnything \/ (CHOOSE x \in Lookup(f, p) : TRUE).t = "dir")]   \* lstat: a directory may be re-used
              ELSE [fs |-> f \cup {[p |-> p, t |-> "dir", tg |-> "a"]}, bad |-> ~Inside(p), fail |-> FALSE])
+       ELSE IF n.kind = "pipe"                                                         \* mknod: exclusive
+       THEN (IF ~ex THEN [fs |-> f \cup {[p |-> p, t |-> "pipe", tg |-> "a"]}, bad |-> ~Inside(p), fail |-> FALSE]
+             ELSE LET q == Res(f, Root, rel, TRUE, 0)                                   \* stat() follows
+                      same == q[1] = "ok" /\ \E x \in Lookup(f, q[2]) : x.t = "pipe"
+                  IN [fs |-> f, bad |-> FALSE, fail |-> ~(MknodReusesSameKind /\ same)])
        ELSE IF ex /\ ~(NoExcl /\ n.kind = "file")
        THEN [fs |-> f, bad |-> FALSE, fail |-> TRUE]
        ELSE IF ex                                   \* NoExcl: open(O_CREAT) follows an existing symlink
@@ -137,16 +143,20 @@ InForests(f) == \/ \E n \in Node : f = <<n>>
 
 (* what the unpack root holds before the run - e.g. what an earlier unpack of another crafted image left there *)
 RA == Root \o <<"a">>
-PreStates == {{}} \cup {{[p |-> RA, t |-> "link", tg |-> t]} : t \in {"up", "upup", "absout"}}
+PreStates == {{}} \cup {{[p |-> RA, t |-> "link", tg |-> t]} : t \in {"up", "upup", "absout", "outpipe"}}
                   \cup {{[p |-> RA, t |-> "dir", tg |-> "a"]}, {[p |-> RA, t |-> "file", tg |-> "a"]},
-                        {[p |-> RA, t |-> "dir", tg |-> "a"], [p |-> RA \o <<"b">>, t |-> "link", tg |-> "upup"]}}
+                        {[p |-> RA, t |-> "dir", tg |-> "a"], [p |-> RA \o <<"b">>, t |-> "link", tg |-> "upup"]},
+                        {[p |-> RA, t |-> "dir", tg |-> "a"], [p |-> RA \o <<"b">>, t |-> "link", tg |-> "outpipe"]}}
 NodeAB == {n \in Node : n.name \in {"a", "b"}}
-InForestsPre(f) == (\E n \in NodeAB : f = <<n>>) \/ (\E n \in Node2 : f = <<n>>)
+LeafP == [name : {"a", "b"}, kind : {"pipe"}, tgt : {"a"}, kids : {<<>>}]                 \* a named pipe (mknod)
+NodeP == LeafP \cup {[name |-> nm, kind |-> "dir", tgt |-> "a", kids |-> <<l>>] : nm \in {"a", "b"}, l \in LeafP}
+InForestsPre(f) == (\E n \in NodeAB : f = <<n>>) \/ (\E n \in Node2 : f = <<n>>) \/ (\E n \in NodeP : f = <<n>>)
 VARIABLES forest, result, pre
 Init == /\ pre \in (IF WithPre THEN PreStates ELSE {{}})
         /\ IF pre = {} THEN InForests(forest) ELSE InForestsPre(forest)
         /\ result = [fs |-> {[p |-> <<"J">>, t |-> "dir", tg |-> "a"], [p |-> Root, t |-> "dir", tg |-> "a"],
-                            [p |-> <<"OUT">>, t |-> "dir", tg |-> "a"]} \cup pre, bad |-> FALSE, fail |-> FALSE, ran |-> FALSE]
+                            [p |-> <<"OUT">>, t |-> "dir", tg |-> "a"], [p |-> <<"OUT", "p">>, t |-> "pipe", tg |-> "a"]} \cup pre,
+                      bad |-> FALSE, fail |-> FALSE, ran |-> FALSE]
 Run == /\ ~result.ran
        /\ IF ~SkipDupCheck /\ AnyDup(forest)
           THEN result' = [result EXCEPT !.fail = TRUE, !.ran = TRUE]                      \* tree_sort rejects duplicates
@@ -158,7 +168,7 @@ Run == /\ ~result.ran
        /\ UNCHANGED <<forest, pre>>
 Next == Run \/ (result.ran /\ UNCHANGED <<forest, result, pre>>)
 Spec == Init /\ [][Next]_<<forest, result, pre>>
-Confined == ~result.bad /\ \A e \in result.fs : Inside(e.p) \/ e.p \in {<<"J">>, <<"OUT">>}
+Confined == ~result.bad /\ \A e \in result.fs : Inside(e.p) \/ e.p \in {<<"J">>, <<"OUT">>, <<"OUT", "p">>}
 (* with a deviation constant on, the forests that end "bad" are exactly those for which that barrier is the only *)
 (* protection: they are emitted and unpacked by the real tool                                                    *)
 EmitOK == (Emit /\ result.ran /\ result.bad) => PrintT(<<"RESULT", ToJson([forest |-> forest, fail |-> result.fail, pre |-> pre])>>)
